@@ -50,6 +50,9 @@ pub enum S {
     /// a host type whose Serialize implementation asks `is_human_readable()` (text for formats like JSON, compact
     /// binary otherwise): kind 0 = std::net::Ipv4Addr, 1 = std::net::SocketAddrV4 (port 8080), 2 = std::net::IpAddr::V4
     Net(u8, u32),
+    /// inside a struct: a field the host type skips (`#[serde(skip_serializing_if = ...)]` calls `skip_field`); anywhere
+    /// else it serialises as unit
+    SkippedField,
 }
 
 fn name(i: u8) -> &'static str {
@@ -204,19 +207,33 @@ impl Serialize for AnySer<'_> {
             }
             S::Struct(fs) => {
                 hit("serialize_struct");
-                let mut s = z.serialize_struct("St", fs.len())?;
+                let mut s = z.serialize_struct("St", fs.iter().filter(|(_, v)| !matches!(v, S::SkippedField)).count())?;
                 for (k, v) in fs {
-                    s.serialize_field(name(*k), &AnySer(v))?;
+                    if matches!(v, S::SkippedField) {
+                        hit("skip_field");
+                        s.skip_field(name(*k))?;
+                    } else {
+                        s.serialize_field(name(*k), &AnySer(v))?;
+                    }
                 }
                 s.end()
             }
             S::StructVariant(i, fs) => {
                 hit("serialize_struct_variant");
-                let mut s = z.serialize_struct_variant("E", *i as u32, name(*i), fs.len())?;
+                let mut s = z.serialize_struct_variant("E", *i as u32, name(*i), fs.iter().filter(|(_, v)| !matches!(v, S::SkippedField)).count())?;
                 for (k, v) in fs {
-                    s.serialize_field(name(*k), &AnySer(v))?;
+                    if matches!(v, S::SkippedField) {
+                        hit("skip_field");
+                        s.skip_field(name(*k))?;
+                    } else {
+                        s.serialize_field(name(*k), &AnySer(v))?;
+                    }
                 }
                 s.end()
+            }
+            S::SkippedField => {
+                hit("serialize_unit");
+                z.serialize_unit()
             }
             S::Dur(secs, nanos) => {
                 hit("Duration-wrapper");
@@ -270,7 +287,7 @@ pub fn shape(s: &S) -> Result<V, ()> {
         S::Char(c) => V::Str(c.to_string()),
         S::Str(s) => V::Str(s.clone()),
         S::Bytes(b) => V::Bytes(b.clone()),
-        S::None | S::Unit | S::UnitStruct => V::Null,
+        S::None | S::Unit | S::UnitStruct | S::SkippedField => V::Null,
         S::Some(x) | S::NewtypeStruct(x) => shape(x)?,
         S::UnitVariant(i) => V::s(name(*i)),
         S::NewtypeVariant(i, x) => V::Map(vec![(V::s(name(*i)), shape(x)?)]),
@@ -317,6 +334,10 @@ pub fn shape(s: &S) -> Result<V, ()> {
 fn fields(fs: &[(u8, S)]) -> Result<Vec<(V, V)>, ()> {
     let mut out: Vec<(V, V)> = vec![];
     for (k, v) in fs {
+        if matches!(v, S::SkippedField) {
+            // a skipped field is not part of the data
+            continue;
+        }
         let kk = V::s(name(*k));
         let vv = shape(v)?;
         if let Some(slot) = out.iter_mut().find(|(k2, _)| same(k2, &kk)) {
@@ -578,12 +599,13 @@ pub fn gen_s(u: &mut Chooser, depth: usize) -> S {
         8 => S::TupleStruct((0..u.below(4)).map(|_| gen_s(u, d)).collect()),
         9 => S::TupleVariant(u.below(8) as u8, (0..u.below(4)).map(|_| gen_s(u, d)).collect()),
         10 | 11 => S::Map((0..u.below(4)).map(|_| (gen_key(u), gen_s(u, d))).collect()),
-        12 => S::Struct((0..u.below(4)).map(|_| (u.below(8) as u8, gen_s(u, d))).collect()),
-        13 => S::StructVariant(u.below(8) as u8, (0..u.below(4)).map(|_| (u.below(8) as u8, gen_s(u, d))).collect()),
+        12 => S::Struct((0..u.below(4)).map(|_| (u.below(8) as u8, if u.chance(1, 5) { S::SkippedField } else { gen_s(u, d) })).collect()),
+        13 => S::StructVariant(u.below(8) as u8, (0..u.below(4)).map(|_| (u.below(8) as u8, if u.chance(1, 5) { S::SkippedField } else { gen_s(u, d) })).collect()),
         14 => {
             // durations within +-2^63 ns
             let ns = match u.below(3) {
-                0 => *u.pick(&[0i128, 1, -1, 1_500_000_000, -1_500_000_000, i64::MAX as i128, i64::MIN as i128 + 1, 999_999_999, -999_999_999]),
+                0 => *u.pick(&[0i128, 1, -1, 1_500_000_000, -1_500_000_000, i64::MAX as i128, i64::MIN as i128 + 1, 999_999_999, -999_999_999, -1_000_000_000, -5_400_000_000_000, -604_800_000_000_000, 1_000_000_000, -2_000_000_000, 3_000_000_000_000_000_000, -3_000_000_000_000_000_000]),
+                1 => (u.range(-100_000, 100_000) as i128) * 1_000_000_000,
                 _ => u.log_i64() as i128,
             };
             match V::dur_ns(ns) {
